@@ -84,10 +84,15 @@ theorem discipline_partial : ∀ v ∈ violations, v ∈ exempt ∨ v ∈ known 
 /-- the `known` entries are real: each is reported by the analysis of the current source -/
 theorem discipline_counter : ∀ v ∈ known, v ∈ violations := by decide
 
-/-- the shared-slot accessors of closures take the lock before touching `shared.values` -/
+/-- the three shared-slot accessors of closures (`getSharedSlot`, `setSharedSlot`,
+`getSetSharedSlot`) exist and touch `shared.values` only with the `Shared` lock taken by
+themselves (read-modify-write of a shared closure variable is one critical section) -/
 theorem frame_shared_guarded :
+    (∀ n ∈ ["getSharedSlot", "setSharedSlot", "getSetSharedSlot"],
+      ∃ m ∈ methods, m.recv = "Frame" ∧ m.name = n ∧ ∃ a ∈ m.accs, a.field = "shared.values") ∧
     ∀ m ∈ methods, m.recv = "Frame" →
-      ∀ a ∈ m.accs, a.field = "shared.values" → a.held = .w ∨ a.held = .caller := by decide
+      m.name ∈ ["getSharedSlot", "setSharedSlot", "getSetSharedSlot"] →
+      ∀ a ∈ m.accs, a.field = "shared.values" → a.held = .w := by decide
 
 /-- Under reader/writer-lock semantics (`sync.RWMutex` as a transition system) every reachable lock
 state has no reader next to a writer, and then: while a writer holds the lock neither `Lock` nor
